@@ -6,14 +6,18 @@ SPEC = dict(
     level='exploration',
     rule='case = one enumerated slice or one generated input: cp = a block of 4096 code points (all 1,114,112 + a block of values above U+10FFFF); '
          'dec2/dec3 = all byte strings of length <=2 / =3 with a given first byte (prefix); dec4 = all 4-byte strings starting with a 4-byte lead 0xF0..0xF7; dec-rand = one UTF-8-ish random string of <=16 bytes with all its prefixes; '
-         'int = the boundary set or 250 random 64-bit patterns seen through int/uint/int64/uint64; hex = single bytes, all 2-byte strings, random buffers <600 bytes; '
+         'int = the boundary set or 250 random 64-bit patterns seen through int/uint/int64/uint64, each from*() text also parsed by the member to*() / toDouble() of a String ATTACHED to exactly these '
+         'characters inside a larger exactly-sized heap block whose bytes behind the range are {terminator, digits+terminator, digits up to the block end, sign+digit, .d/ed+terminator, one non-digit byte at the block end} '
+         '(boundary set: every class twice; random values: one drawn class), plus from*(to*(view)) == view and decimal / %.17g double texts through toDouble on such views; hex = single bytes, all 2-byte strings, random buffers <600 bytes; '
          'b64/b64-3/b64-rand = RFC 4648 encodings (independent in-harness encoder, cross-checked against Python base64) of all byte strings of length <=2 / =3 / random <=300; '
          'b64-bytes = 4-byte groups with two positions running over all 256^2 values (alone, after and before a valid group) and random non-encodings. '
          'distinct = hash of the slice index and the observed results; non-trivial = every enumerated slice, random strings of >=2 bytes. '
          'Compared per input: toString vs reference encoder and (offline) Python utf-8; fromString(toString(c)) == c incl. surrogates; length; isValid '
          '(must accept strict UTF-8, must reject structurally malformed/truncated; overlong, surrogate and >U+10FFFF forms unconstrained); fromString on arbitrary bytes '
-         '(value only for complete strict/surrogate sequences); from*/to* integers vs printf-free digits and Python int; fromHex vs upper-case digits; fromBase64 vs original bytes.',
-    assumptions=['ASan/UBSan red zones: every decoder input is the whole of an exactly-sized heap block (String inputs: owned copy and a String attached to an exactly-sized terminated block)',
+         '(value only for complete strict/surrogate sequences); from*/to* integers vs printf-free digits and Python int (attached views: value of exactly the attached characters, block unchanged); fromHex vs upper-case digits; fromBase64 vs original bytes.',
+    assumptions=['String::attach(p, n) requires p[n] to be readable: the pinned operator const char*() tests str[len] to decide whether a terminated private copy is needed, so an attached '
+                 'range that ends exactly at the end of its heap block is an ASan report in the UNCHANGED library; the views therefore keep at least one byte behind the range',
+                 'ASan/UBSan red zones: every decoder input is the whole of an exactly-sized heap block (String inputs: owned copy and a String attached to an exactly-sized terminated block)',
                  'Python utf-8 codec, int, bytes.hex and base64 are the standards (self-checked on RFC examples at every run)',
                  'for surrogates only the inverse claim is checked; for values above U+10FFFF, truncated or malformed sequences only memory safety (and isValid == false for structurally broken input)',
                  'fromBase64 on inputs that are not canonical RFC 4648 encodings: memory safety, termination, length bound and determinism only'],
@@ -36,16 +40,24 @@ SPEC = dict(
                     offline_code_points_compared=1112064, offline_code_points_seen_incl_surrogates=1114112,
                     strings_len0=1, strings_len1=256, strings_len2=65536, strings_len3=16777216, decoder_inputs=17000000, fromstring_values_compared=4000000, offline_isvalid_compared=65793, offline_decodes_compared=2000,
                     int_values=400000, int_texts_compared=400000, int_parses=1200000, offline_ints_compared=20000,
+                    int_attached_views=400000, int_attached_parses=1400000, int_attached_unterminated_parses=900000, int_attached_terminated_parses=50000, int_attached_views_with_digits_behind=200000,
+                    int_attached_views_ending_at_block_end=150000, int_attached_round_trips=400000, int_attached_empty_views=24, attached_state_confirmed=2000000,
+                    double_attached_parses=250000, double_texts_attached=6000, offline_attached_parses_compared=40000,
                     hex_single_bytes=256, hex_calls=70000, offline_hex_compared=3000,
                     b64_roundtrips=70000, offline_base64_compared=70000, b64_group_position_pairs=393216, b64_inputs_with_high_bytes=300000, b64_random_arbitrary=80000,
-                    **{'set:first_sequence_classes': 6, 'set:code_point_classes': 5, 'set:int_classes': 7, 'set:b64_padding_classes': 3, 'set:b64_free_positions': 6}),
+                    **{'set:first_sequence_classes': 6, 'set:code_point_classes': 5, 'set:int_classes': 7, 'set:b64_padding_classes': 3, 'set:b64_free_positions': 6,
+                       'set:attached_follow_classes': 6, 'set:attached_state_classes': 3}),
             T: dict(code_points=1114112, encodings_compared=1112064, inverse_checks=2228224, truncated_inputs=3000000, array_overload_groups=17408, out_of_range_code_points=4096,
                     offline_code_points_compared=1112064, offline_code_points_seen_incl_surrogates=1114112,
                     strings_len0=1, strings_len1=256, strings_len2=65536, strings_len3=16777216, strings_len4_lead4=134217728, decoder_inputs=150000000, fromstring_values_compared=7000000,
                     offline_isvalid_compared=65793, offline_decodes_compared=2000,
                     int_values=4000000, int_texts_compared=4000000, int_parses=12000000, offline_ints_compared=200000,
+                    int_attached_views=4000000, int_attached_parses=14000000, int_attached_unterminated_parses=9000000, int_attached_terminated_parses=500000, int_attached_views_with_digits_behind=2000000,
+                    int_attached_views_ending_at_block_end=1500000, int_attached_round_trips=4000000, int_attached_empty_views=24, attached_state_confirmed=20000000,
+                    double_attached_parses=2500000, double_texts_attached=60000, offline_attached_parses_compared=400000,
                     hex_single_bytes=256, hex_calls=180000, offline_hex_compared=30000,
                     b64_roundtrips=17000000, offline_base64_compared=300000, b64_group_position_pairs=393216, b64_inputs_with_high_bytes=1000000, b64_random_arbitrary=2000000,
-                    **{'set:first_sequence_classes': 6, 'set:code_point_classes': 5, 'set:int_classes': 7, 'set:b64_padding_classes': 3, 'set:b64_free_positions': 6})},
+                    **{'set:first_sequence_classes': 6, 'set:code_point_classes': 5, 'set:int_classes': 7, 'set:b64_padding_classes': 3, 'set:b64_free_positions': 6,
+                       'set:attached_follow_classes': 6, 'set:attached_state_classes': 3})},
     post=codec_ref.post,
 )
